@@ -243,6 +243,13 @@ func genC19(seed uint64, i int, tier string) *Scenario {
 			Stmt{Text: "put ('x'", Mode: genMode(r)},
 			Stmt{Text: "select * where", Mode: genMode(r)})
 	}
+	// some of the shared texts are long (state keyed by statement text may only be
+	// kept beyond a length threshold)
+	for k := range common {
+		if r.Chance(0.3) {
+			common[k].Text = padStmt(common[k].Text, pick(r, []int{300, 600, 1200, 5000}))
+		}
+	}
 	total := 0
 	for c := 0; c < n; c++ {
 		cl := Client{ID: c}
@@ -261,6 +268,9 @@ func genC19(seed uint64, i int, tier string) *Scenario {
 		}
 		total += nst
 		sc.Clients = append(sc.Clients, cl)
+	}
+	if topo != TopoContended && r.Chance(0.04) {
+		c19Flood(r, sc)
 	}
 	// storage faults in some scenarios: error paths run concurrently too, and state
 	// left behind by a failed call must not leak into another client's statements
@@ -325,6 +335,84 @@ func genC19(seed uint64, i int, tier string) *Scenario {
 	}
 	sc.CSched = cs
 	return sc
+}
+
+// padStmt lengthens a SELECT by conjoining a comparison with a long literal
+// (true for every stored value) to its WHERE clause.
+func padStmt(text string, n int) string {
+	at := strings.Index(text, " where ")
+	if at < 0 || !strings.HasPrefix(text, "select") {
+		return text
+	}
+	end := len(text)
+	for _, kw := range []string{" group by ", " order by ", " limit "} {
+		if j := strings.Index(text[at:], kw); j >= 0 && at+j < end {
+			end = at + j
+		}
+	}
+	return text[:end] + " & value != '" + strings.Repeat("p", n) + "'" + text[end:]
+}
+
+// c19Flood turns a scenario into a cache flood: every client runs the same
+// small "anchor" statements first and last, and one client issues, in between,
+// hundreds to thousands of distinct items of a kind a library might memoise
+// process-wide — regular-expression patterns (in one statement, or spread over
+// many) or statement texts. A bounded cache keyed by such items that evicts,
+// collides or wraps incorrectly makes an anchor return something else than it
+// does alone. All of it is inside one scenario, so a replay in a fresh process
+// sees the same cache history.
+func c19Flood(r *Rng, sc *Scenario) {
+	n := len(sc.Clients)
+	f := r.Intn(n)
+	P := clientPrefix(sc.Clients[f].ID)
+	m := pick(r, []int{70, 140, 300, 1100, 1100})
+	if r.Chance(0.05) {
+		m = 2200
+	}
+	tag := r.Intn(1000)
+	var flood []Stmt
+	switch r.Intn(3) {
+	case 0: // one statement, m patterns (none matches: every one is evaluated)
+		parts := make([]string, m)
+		for j := range parts {
+			parts[j] = fmt.Sprintf("value ~= '^ZQ%dx%d$'", tag, j)
+		}
+		flood = append(flood, Stmt{Text: "select key where key ^= " + quote(P) + " & (" + strings.Join(parts, " | ") + ")", Mode: genMode(r)})
+	case 1: // m patterns over m/24 statements
+		for j := 0; j < m; j += 24 {
+			var parts []string
+			for k := j; k < j+24 && k < m; k++ {
+				parts = append(parts, fmt.Sprintf("value ~= '^ZQ%dy%d$'", tag, k))
+			}
+			flood = append(flood, Stmt{Text: "select key where key ^= " + quote(P) + " & (" + strings.Join(parts, " | ") + ")", Mode: genMode(r)})
+		}
+	default: // m distinct statement texts
+		for j := 0; j < m; j++ {
+			flood = append(flood, Stmt{Text: fmt.Sprintf("select key, value where key = '%sk%03d' & value != 'ZQ%dt%d'", P, j%14, tag, j), Mode: genMode(r)})
+		}
+	}
+	for c := range sc.Clients {
+		Pc := clientPrefix(sc.Clients[c].ID)
+		anchors := []Stmt{
+			{Text: "select key where key ^= " + quote(Pc) + " & value ~= '^[v0-9]'", Mode: genMode(r)},
+			{Text: "select key, value where key = '" + Pc + "k001' & value != 'ZQ'", Mode: genMode(r)},
+			{Text: "select count(1), max(value) where key ^= " + quote(Pc) + " & value ~= '[a-z]'", Mode: genMode(r)},
+		}
+		st := sc.Clients[c].Stmts
+		mid := len(st) / 2
+		var out []Stmt
+		out = append(out, anchors...)
+		out = append(out, st[:mid]...)
+		if c == f {
+			out = append(out, flood...)
+		} else {
+			out = append(out, anchors...)
+		}
+		out = append(out, st[mid:]...)
+		out = append(out, anchors...)
+		sc.Clients[c].Stmts = out
+	}
+	sc.Family = "flood"
 }
 
 type multiRes struct {
@@ -557,6 +645,36 @@ func runC19(sc *Scenario, st *Stats) []Violation {
 					Detail: fmt.Sprintf("client %d statement #%d returned a different result under the concurrent schedule than when run alone: %s | statement: %s", c, i, why, sc.Clients[c].Stmts[i].Text),
 					Sig:    fmt.Sprintf("topology=%s stmt=%s plan=%s", sc.Topology, stmtKind(sc.Clients[c].Stmts[i].Text), planShape(solo.res[c][i].Explain))})
 				break
+			}
+		}
+	}
+	if sc.Topology == TopoSharedRO && len(vs) == 0 {
+		// nobody writes: byte-identical statements drained the same way return the same
+		// result whoever runs them and whenever (statements hit by an injected fault aside)
+		type firstRes struct {
+			c, i int
+		}
+		first := map[string]firstRes{}
+	repeat:
+		for c := range conc.res {
+			for i := range conc.res[c] {
+				r := &conc.res[c][i]
+				if strings.Contains(r.Err, "simfault#") || strings.Contains(r.BuildErr, "simfault#") {
+					continue
+				}
+				k := sc.Clients[c].Stmts[i].Mode + "|" + sc.Clients[c].Stmts[i].Text
+				fr, ok := first[k]
+				if !ok {
+					first[k] = firstRes{c, i}
+					continue
+				}
+				if same, why := stmtResEqual(&conc.res[fr.c][fr.i], r); !same {
+					vs = append(vs, Violation{Prop: "C19", Kind: "interference",
+						Detail: fmt.Sprintf("nobody writes to the store, yet the same statement returned different results to client %d (statement #%d) and client %d (statement #%d) of the concurrent run: %s | statement: %s", fr.c, fr.i, c, i, why, sc.Clients[c].Stmts[i].Text),
+						Sig:    fmt.Sprintf("topology=%s repeat stmt=%s", sc.Topology, stmtKind(sc.Clients[c].Stmts[i].Text))})
+					break repeat
+				}
+				st.Inc("repeated_statements_compared")
 			}
 		}
 	}
